@@ -143,7 +143,7 @@ theorem crop_empty_ok (t : ITier Int) (a b : Int) (hab : a < b) (m : CropMode) (
     t.crop a b m r = .ok ⟨t.name, [], if r then 0 else a, if r then b - a else b⟩ := by
   cases r <;>
     simp [ITier.crop, rebaseIvs, show ¬ b ≤ a by omega, hsel, mkITier, sortIvs, pyMinList, pyMaxList,
-      ivsAllPos, ivsNoOverlap, Tm.zero]
+      ivsAllPos, ivsNoOverlap, Tm.zero] <;> omega
 
 /-! ## the label-at-every-time function of a truncated crop -/
 
